@@ -1,6 +1,6 @@
 (* C11 — complex-valued fields reproduce real-valued runs.  Model: model/Yee.v; lemmas: proofs/Yee_real.v, proofs/Yee_real_pml.v *)
 From Coq Require Import List Arith.
-From FV Require Import base.Scalar base.Cplx model.Yee proofs.Yee_steps proofs.Yee_real proofs.Yee_real_pml model.YeeFull proofs.Yee_full_props.
+From FV Require Import base.Scalar base.Cplx model.Yee proofs.Yee_steps proofs.Yee_real proofs.Yee_real_pml model.YeeFull proofs.Yee_full_props proofs.Yee_lossy_props.
 Import ListNotations.
 
 (* For every scene of the pair model (any grid, widths, masks, iso/diagonal lossy materials, ANY list of CPML layers) whose ghost
@@ -24,3 +24,12 @@ Theorem C11_full_tensor_complex_stays_real : forall (K : Fld) (sc : scene K), pm
   realV K (fE (iterFR K sc ie9 im9 n s)) /\ realV K (fH (iterFR K sc ie9 im9 n s)).
 Proof. intros K sc Hp G I ie9 im9. exact (forward_full_real_n K sc Hp G I ie9 im9). Qed.
 Print Assumptions C11_full_tensor_complex_stays_real.
+
+(* The conductive fully anisotropic tiers (model/YeeFull.v forward_lossy), PML-free scenes. *)
+Theorem C11_lossy_tensor_complex_stays_real : forall (K : Fld) (sc : scene K), pmls K sc = [] ->
+  (realC K (hix K sc) /\ realC K (hiy K sc) /\ realC K (hiz K sc) /\ realC K (lox K sc) /\ realC K (loy K sc) /\ realC K (loz K sc)) ->
+  (forall t, realV K (injE K sc t) /\ realV K (injH K sc t)) ->
+  forall (e m : option (T9 K * T9 K)) n s, realV K (fE s) -> realV K (fH s) ->
+  realV K (fE (iterLR K sc e m n s)) /\ realV K (fH (iterLR K sc e m n s)).
+Proof. intros K sc Hp G I e m. exact (forward_lossy_real_n K sc Hp G I e m). Qed.
+Print Assumptions C11_lossy_tensor_complex_stays_real.
